@@ -25,6 +25,8 @@ def dispatch (op : String) (payload : Json) : R Json :=
   | "file_decision" => C11.handleDecision payload
   | "is_name" => C11.handleIsName payload
   | "no_crash_shape" => C07.handle payload
+  | "root_context" => File.handleRoot payload
+  | "analyse_file" => File.handleFile payload
   | _ => .error s!"unknown op {op}"
 
 partial def loop (h : IO.FS.Stream) (out : IO.FS.Stream) : IO Unit := do
